@@ -135,7 +135,7 @@ def install(owner, name, post, snap=None, label=None):
         return w
     raw = owner.__dict__[name] if isinstance(owner, type) else getattr(owner, name)
     oname = getattr(owner, "__name__", str(owner)).split(".")[-1]
-    label = label or f"{oname}.{name}"
+    label = label or (f"{oname}.{name}" if isinstance(owner, type) else name)
     if isinstance(raw, classmethod):
         w = _make_wrapper(raw.__func__, label, post, snap)
         setattr(owner, name, classmethod(w))
